@@ -78,6 +78,13 @@ def val(n):
                 ("L", tuple(val(c) for c in n._children)))
     if isinstance(n, graphtage.KeyValuePairNode):
         return ("K", val(n.key), val(n.value))
+    from graphtage import plist as gplist, dataclasses as gdc, pydiff as gpd
+    if isinstance(n, gplist.PLISTNode):
+        return ("P", val(n.root))
+    if isinstance(n, gpd.PyObj):
+        return ("O", val(n.class_name), val(n.attrs))
+    if isinstance(n, gdc.DataClassNode):
+        return ("C", tuple((slot, val(v)) for slot, v in n.items()))
     if isinstance(n, graphtage.MappingNode):
         return ("D", mset(val(c) for c in n))
     if isinstance(n, graphtage.MultiSetNode):
@@ -138,6 +145,24 @@ def recon(e):
         subs = [recon(s) for s in e.edit_distance.edits()]
         return (("s", "".join(a[1] for a, b in subs if a is not ABSENT)),
                 ("s", "".join(b[1] for a, b in subs if b is not ABSENT)))
+    from graphtage import plist as gplist, dataclasses as gdc, pydiff as gpd
+    if isinstance(e, gpd.PyObjEdit):
+        na, nb = recon(e.name_edit)
+        aa, ab = recon(e.attrs_edit)
+        return ("O", na, aa), ("O", nb, ab)
+    if isinstance(e, gdc.DataClassEdit):
+        slots = [slot for slot, _ in e.from_node.items()]
+        subs = [recon(s) for s in e.edits()]
+        if len(subs) != len(slots):
+            raise TypeError(f"recon: DataClassEdit lists {len(subs)} sub-edits for {len(slots)} slots")
+        return (("C", tuple((slot, a) for slot, (a, b) in zip(slots, subs))),
+                ("C", tuple((slot, b) for slot, (a, b) in zip(slots, subs))))
+    if isinstance(e.from_node, gplist.PLISTNode) and isinstance(e, CompoundEdit):
+        subs = [s for s in e.edits() if s.from_node is not e.from_node]
+        if len(subs) != 1:
+            raise TypeError(f"recon: plist wrapper edit lists {len(subs)} root edits")
+        a, b = recon(subs[0])
+        return ("P", a), ("P", b)
     if isinstance(e, ge.PossibleEdits):
         best = e.best_possibility()
         return recon(best)
